@@ -41,7 +41,22 @@ def _special_w(w, variant):
     return (0,) + tuple(w[1:]) if variant == 1 else (w[0], w[1], 0)
 
 
-def realise(hist, eol=b"\n", xref_w=(1, 4, 2), zero_type_width=False):
+def newest_def(hist, p):
+    return max(k for k, r in enumerate(hist, 1) if p in r["defs"])
+
+
+def null_overrides(hist):
+    """payload numbers whose newest definition (in a revision after the first) overrides an older one: in realisation
+    variant 1 that newest definition is written as `null` - still the newest, so getobj must return None, not the old value"""
+    out = set()
+    for k, r in enumerate(hist, 1):
+        for p in r["defs"]:
+            if k > 1 and k == newest_def(hist, p) and any(p in q["defs"] for q in hist[:k - 1]):
+                out.add(p)
+    return out
+
+
+def realise(hist, eol=b"\n", xref_w=(1, 4, 2), zero_type_width=False, nulls=True):
     """zero_type_width: cross-reference streams that list only type-1 entries (a later revision, no object stream,
     one /Index range per run so that no free filler entry is needed) are written with /W [0 n m] - the type field has
     width 0 and every entry defaults to type 1 (ISO 32000-1 table 17)."""
@@ -55,6 +70,8 @@ def realise(hist, eol=b"\n", xref_w=(1, 4, 2), zero_type_width=False):
             objs[1] = {"Type": Name("Catalog"), "Pages": Ref(2), "Rev": k}
         for p in r["defs"]:
             objs[p + 2] = {"Obj": p, "Ver": k}
+            if nulls and zero_type_width == 1 and p in null_overrides(hist) and k == newest_def(hist, p):
+                objs[p + 2] = None        # variant 1: the newest definition of an object that an older revision defined is `null`
         revs.append(Revision(dict(sorted(objs.items())), form=r["form"], objstm=sorted(p + 2 for p in r["packed"]),
                              split_index=r["split"], objstm_id=r["stmid"] or None, xref_id=r["xid"] or None,
                              root=Ref(1) if k == 1 else None, info={"Rev": k} if (k == 1 or r["newroot"]) else None,
@@ -141,7 +158,9 @@ def direction_a1(ck, dev):
             except Exception as e:
                 ck.violation("open:" + type(e).__name__, "a conforming %d-revision file could not be opened: %s" % (len(r["hist"]), e), replay)
                 continue
-            for (p, want) in r["calls"]:
+            nulls = null_overrides(r["hist"]) if zw == 1 else set()
+            calls = [(p, ("?", "None") if p in nulls else tuple(want)) for (p, want) in r["calls"]]
+            for (p, want) in calls:
                 got = fetch(doc, p + 2)
                 if got != tuple(want):
                     forms = "+".join(x["form"] + ("/objstm" if x["packed"] else "") for x in r["hist"])
@@ -151,7 +170,7 @@ def direction_a1(ck, dev):
             # the other caching mode must agree (same calls)
             if variant % 4 == 0 or ck.tier == "thorough":
                 doc2 = open_doc(data, not r["caching"], None)
-                for (p, want) in r["calls"]:
+                for (p, want) in calls:
                     if fetch(doc2, p + 2) != tuple(want):
                         ck.violation("caching-dependent", "getobj(%d) differs with caching=%s" % (p + 2, not r["caching"]), replay)
             if len(doc.xrefs) != len(r["secs"]):
@@ -250,6 +269,7 @@ def direction_a3(ck):
         xp = info["xref_pos"][0]
         damaged = {
             "startxref-offset": data.replace(b"startxref" + eol + b"%d" % xp, b"startxref" + eol + b"%d" % (xp + 7 + i)),
+            "startxref-beyond-eof": data.replace(b"startxref" + eol + b"%d" % xp, b"startxref" + eol + b"%d" % (len(data) + 100000)),
             "startxref-garbage": data.replace(b"startxref" + eol + b"%d" % xp, b"startxref" + eol + b"x%d" % xp),
             "xref-keyword": data[:xp] + b"xrfe" + data[xp + 4:],
             "xref-subsection": data[:xp] + data[xp:].replace(b"0 %d" % (max(objs) + 1), b"0 zz", 1),
@@ -409,7 +429,7 @@ def direction_b(ck):
             ck.note("sample %s not recorded: %s" % (fn, type(e).__name__))
     for i in range(3 if ck.tier == "quick" else 25):
         hist = many_revision_doc(ck.seed * 100 + i)
-        data = realise(hist, EOLS[i % 3], zero_type_width=i % 3)
+        data = realise(hist, EOLS[i % 3], zero_type_width=i % 3, nulls=False)   # (the trace spec identifies values by their version)
         recs.append(record_lookups(data, i % 2 == 0, i, "generated 40-revision document #%d" % i, hist=hist))
     recs = [r for r in recs if r["events"]]
     tf = os.path.join(ck.tmp, "c02_traces.json")
